@@ -99,17 +99,17 @@ func renderD(v ssa.Value, d int) string {
 	case *ssa.Global:
 		return x.Name()
 	case *ssa.FieldAddr:
-		_, st := structOf(x.X.Type())
+		nn, st := structOf(x.X.Type())
 		fn := "?"
 		if st != nil {
-			fn = st.Field(x.Field).Name()
+			fn = fieldNameOf(nn, st, x.Field)
 		}
 		return "&" + renderD(x.X, d+1) + "." + fn
 	case *ssa.Field:
-		_, st := structOf(x.X.Type())
+		nn, st := structOf(x.X.Type())
 		fn := "?"
 		if st != nil {
-			fn = st.Field(x.Field).Name()
+			fn = fieldNameOf(nn, st, x.Field)
 		}
 		return renderD(x.X, d+1) + "." + fn
 	case *ssa.UnOp:
@@ -198,17 +198,17 @@ func shapeD(v ssa.Value, d int) string {
 	case *ssa.Global:
 		return x.Name()
 	case *ssa.FieldAddr:
-		_, st := structOf(x.X.Type())
+		nn, st := structOf(x.X.Type())
 		fn := "?"
 		if st != nil {
-			fn = st.Field(x.Field).Name()
+			fn = fieldNameOf(nn, st, x.Field)
 		}
 		return "&" + shapeD(x.X, d+1) + "." + fn
 	case *ssa.Field:
-		_, st := structOf(x.X.Type())
+		nn, st := structOf(x.X.Type())
 		fn := "?"
 		if st != nil {
-			fn = st.Field(x.Field).Name()
+			fn = fieldNameOf(nn, st, x.Field)
 		}
 		return shapeD(x.X, d+1) + "." + fn
 	case *ssa.UnOp:
